@@ -50,6 +50,11 @@ func (c *Ctx) ScopeWhen(f *ssa.Function, name string, wants ...string) Scope {
 		return Scope{}
 	}
 	c.funcsSeen[f] = true
+	// pass 0: the edge's target is entered only through that edge (the region really is
+	// "where the fact holds"); pass 1: the target is a join that other paths reach too —
+	// the scope then is everything from the target on, as a source-level reader would
+	// take "the code after the if".
+	for pass := 0; pass < 2; pass++ {
 	for _, b := range f.Blocks {
 		if len(b.Instrs) == 0 {
 			continue
@@ -59,7 +64,7 @@ func (c *Ctx) ScopeWhen(f *ssa.Function, name string, wants ...string) Scope {
 			continue
 		}
 		for i, s := range b.Succs {
-			if !onlyEntersFrom(s, b, i) {
+			if pass == 0 && !onlyEntersFrom(s, b, i) {
 				continue
 			}
 			have := factsAt(iff)
@@ -87,6 +92,7 @@ func (c *Ctx) ScopeWhen(f *ssa.Function, name string, wants ...string) Scope {
 				return Scope{F: f, Start: s, Name: fname(f) + "/" + name}
 			}
 		}
+	}
 	}
 	c.Machinef("anchor: %s has no branch %s", fname(f), name)
 	return Scope{}
